@@ -64,7 +64,8 @@ def explore(mod, tier: str) -> int:
 
     core.run_batch(mod.worker, seeds, wall_cap_s=budget["wall"], chunk=budget.get("chunk", 4),
                    on_result=on_result, start=getattr(mod, "START", "fork"),
-                   jobs=min(core.n_jobs(), budget.get("jobs", 64)))
+                   jobs=min(core.n_jobs(), budget.get("jobs", 64)),
+                   stop_when=lambda out: any(not outcome.findings.is_known(sig) for sig, _ in out["problems"]))
 
     unreproducible = []
     max_min = getattr(mod, "MAX_MINIMISED", 5)       # a change that breaks everything yields hundreds of signatures:
